@@ -206,6 +206,9 @@ def sweep(ctx, model, table, select, nvec, profile, stats, judge_answers=True):
     for k in K.KINDS:
         if not select(k):
             continue
+        if len(ctx.violations) >= 8:
+            stats["stopped_early"] = "8 violations recorded"      # the check has failed; more cases add nothing
+            break
         cases, model_args = [], []
         stats["profiles"] = stats.get("profiles", 0) + 1
         profile = R.make_profile(ctx.scratch, stats["profiles"])
@@ -263,6 +266,8 @@ def reply_sweep(ctx, model, nvec, profile, stats):
     """request that registers a callback, then the reply for its id: exactly one entity of the documented class"""
     K = kinds()
     for rq in K.REQS:
+        if len(ctx.violations) >= 8:
+            break
         for ax in (0, 1):
             for flags in FLAGSETS:
                 fl = dict(zip(R.FLAGS, flags))
@@ -387,6 +392,9 @@ def history_sweep(ctx, model, select, nhist, stats, judge_answers, length=(6, 16
     stats.setdefault("history_steps", 0)
     stats.setdefault("history_id_reuses", 0)
     for h in range(nhist):
+        if len(ctx.violations) >= 8:
+            stats["stopped_early"] = "8 violations recorded"
+            break
         r = random.Random(ctx.rng.getrandbits(48))
         flags = r.choice(FLAGSETS) if h % 3 else FLAGSETS[-1]
         ax = r.randint(0, 1)
